@@ -119,6 +119,7 @@ pub fn stages(prop: &str, tier: &str) -> Vec<Stage> {
                 st.exec.max_steps = 40_000;
                 v.push(st);
             }
+            v.push(stage("a reader that rebuilds a level from its snapshot and empties it, against one and two writers, books B1-B5", restore_programs(&books5, &alpha, false), Some(3)));
             v.push(stage("victim programs: one fine-grained operation against 3 call-atomic operations of another thread, B1 B2 B3 B12", programs_victim(&[Book::B1, Book::B2, Book::B3, Book::B12], &alpha, &[COp::Add, COp::Match(2), COp::Match(20), COp::Cancel(1), COp::Amend(1, 2)], 3), None));
         } else {
             {
@@ -139,6 +140,7 @@ pub fn stages(prop: &str, tier: &str) -> Vec<Stage> {
                 st.exec.max_steps = 40_000;
                 v.push(st);
             }
+            v.push(stage("a reader that rebuilds a level from its snapshot and empties it, against one and two writers, ten books", restore_programs(&books6, &wide, true), Some(4)));
             v.push(stage("victim programs: one fine-grained operation against 4 call-atomic operations of another thread, seven books", programs_victim(&[Book::B1, Book::B2, Book::B3, Book::B4, Book::B7, Book::B8, Book::B12], &wide, &[COp::Add, COp::Match(2), COp::Match(20), COp::Cancel(1), COp::Amend(1, 2)], 4), None));
             v.push(stage("pairs and triples of 1-op threads on a 70-order book", { let mut p = programs_1op(2, &[Book::B9, Book::B10], &big); p.extend(programs_1op(3, &[Book::B9], &big)); p }, Some(2)));
             // a wider alphabet for the unbounded two-thread programs: iceberg adds, amend to zero display
@@ -1051,11 +1053,31 @@ pub fn c15_stats_programs(tier: &str, cap: Duration) -> (u64, u64, Vec<String>, 
     (n, scheds, msgs, smp)
 }
 
+/// [Restore || w] for every writer w, and [Restore || w1 || w2] (all pairs when `full`, else pairs with an add)
+fn restore_programs(books: &[Book], alpha: &[COp], full: bool) -> Vec<Program> {
+    let writers: Vec<COp> = alpha.iter().copied().filter(|o| !matches!(o, COp::Read | COp::Restore)).collect();
+    let mut v = vec![];
+    for b in books {
+        for (i, w) in writers.iter().enumerate() {
+            v.push(Program { book: *b, threads: vec![vec![COp::Restore], vec![*w]], coarse: vec![] });
+            for w2 in writers.iter().skip(i) {
+                let both_add = matches!(w, COp::Add | COp::AddIce) && matches!(w2, COp::Add | COp::AddIce);
+                if both_add || !(full || matches!(w, COp::Add) || matches!(w2, COp::Add)) {
+                    continue;
+                }
+                v.push(Program { book: *b, threads: vec![vec![COp::Restore], vec![*w], vec![*w2]], coarse: vec![] });
+            }
+        }
+    }
+    v
+}
+
 fn op_from_value(v: &Value) -> COp {
             if let Some(s) = v.as_str() {
                 return match s {
                     "Add" => COp::Add,
                     "AddIce" => COp::AddIce,
+                    "Restore" => COp::Restore,
                     _ => COp::Read,
                 };
             }
